@@ -86,6 +86,8 @@ type run struct {
 	moveReq  int // number of metadata requests that had arrived when the cluster last changed
 	pidSeq   int64
 	dialHook func()
+	dmu      sync.Mutex // serialises dials with the tear-down of the scenario
+	down     bool
 }
 
 func tpBase(sc *Script, t string, p int) int64 {
@@ -286,6 +288,11 @@ func brokerOfAddr(a string) int {
 func (r *run) dial(ctx context.Context, network, address string) (net.Conn, error) {
 	if h := r.dialHook; h != nil {
 		h()
+	}
+	r.dmu.Lock()
+	defer r.dmu.Unlock()
+	if r.down {
+		return nil, errors.New("scenario over")
 	}
 	nc, err := r.net.DialOwner(ctx, r.sc.ID, address)
 	if err != nil {
@@ -539,14 +546,22 @@ func insertAt(b []byte, pos int, ins []byte) []byte {
 
 // answer computes the reply of the fake broker, adding what the shared cluster lacks: coordinator
 // look-ups for both key types, the newest Produce/Fetch versions the library implements, transaction APIs.
-func (r *run) answer(req *fakekafka.Request, info trace.Event) (rep fakekafka.Reply, node int) {
+// canServe: the fake cluster implements this version and the broker advertised it. Otherwise (a real broker
+// would answer UNSUPPORTED_VERSION in a format the client cannot rely on) the fake closes the connection
+// without executing the request.
+func (r *run) canServe(req *fakekafka.Request) bool {
 	max, ok := servable[req.ApiKey]
 	if !ok || req.Version > max {
-		return fakekafka.Reply{Close: true, CutAt: -1}, 0
+		return false
 	}
 	if vr, ok := req.Broker.Versions[req.ApiKey]; ok && (req.Version < vr.Min || req.Version > vr.Max) {
-		// outside the range this broker advertised: a real broker answers UNSUPPORTED_VERSION in a format the client
-		// cannot rely on; the fake closes the connection
+		return false
+	}
+	return true
+}
+
+func (r *run) answer(req *fakekafka.Request, info trace.Event) (rep fakekafka.Reply, node int) {
+	if !r.canServe(req) {
 		return fakekafka.Reply{Close: true, CutAt: -1}, 0
 	}
 	switch req.ApiKey {
@@ -652,7 +667,7 @@ func (r *run) intercept(req *fakekafka.Request) *fakekafka.Reply {
 		r.cond.Broadcast()
 	}
 	ev := trace.Event{"ev": "req", "conn": cid, "broker": b, "api": name, "v": int(req.Version), "corr": int(req.CorrID), "o": o, "leg": leg,
-		"t": info["t"], "p": info["p"], "key": info["key"], "n": n}
+		"t": info["t"], "p": info["p"], "key": info["key"], "n": n, "unserved": !r.canServe(req)}
 	r.rec.Emit(ev)
 	if ch := r.arrived[o]; ch != nil && o > 0 {
 		select {
@@ -1251,7 +1266,11 @@ func Run(sc *Script) []trace.Event {
 		}
 	}
 	evs := r.rec.Events()
-	for _, c := range r.net.Open("") {
+	r.dmu.Lock()
+	r.down = true
+	open := r.net.Open("")
+	r.dmu.Unlock()
+	for _, c := range open {
 		c.Close()
 	}
 	return evs
